@@ -1,4 +1,5 @@
 import PermutaModel.Lemmas.C16Special
+import PermutaModel.Spec.C16
 /-!
 Explicit arbitrarily long families (parallel alternations, wedge permutations of the two kinds) avoid
 the generated tables, for every length.
@@ -92,11 +93,6 @@ theorem getD_mapRange (n : Nat) (e : Nat → Nat) (p : Nat) (hp : p < n) :
     ((List.range n).map e).getD p 0 = e p := by
   simp [List.getD_eq_getElem?_getD, hp]
 
-/-- parallel alternation: the even values decreasing, then the odd values decreasing
-    (`2m-2, …, 2, 0, 2m-1, …, 3, 1`) -/
-def altEntry (m p : Nat) : Nat := if p < m then 2 * (m - 1 - p) else 2 * (2 * m - 1 - p) + 1
-def parAlt (m : Nat) : NSeq := (List.range (2 * m)).map (altEntry m)
-
 inductive AltT | L | R deriving DecidableEq, Inhabited
 def altTyping : Typing AltT where
   rel := fun s t => match s, t with
@@ -123,12 +119,6 @@ theorem parAlt_avoids (m : Nat) (τ : NSeq) (h : checkAvoid altTyping [AltT.L, A
   · intro p q hpq hq
     by_cases hp : p < m <;> by_cases hqm : q < m <;> simp [hp, hqm, altTyping]
     omega
-
-/-- wedge permutation of the first kind: `m-1, m+1, m-2, m+2, …, 0, 2m, m`
-    (a wedge alternation with apex on the left, and one more point in its mouth) -/
-def w1Entry (m p : Nat) : Nat :=
-  if p = 2 * m then m else if p % 2 = 0 then m - 1 - p / 2 else m + 1 + p / 2
-def wedge1 (m : Nat) : NSeq := (List.range (2 * m + 1)).map (w1Entry m)
 
 inductive W1T | E | O | Last deriving DecidableEq, Inhabited
 def w1Typing : Typing W1T where
@@ -166,12 +156,6 @@ theorem wedge1_avoids (m : Nat) (τ : NSeq) (h : checkAvoid w1Typing [W1T.E, W1T
     have hp2 : p ≠ 2 * m := by omega
     unfold w1Ty
     by_cases hpe : p % 2 = 0 <;> simp [hp2, hpe, w1Typing]
-
-/-- wedge permutation of the second kind: `1, 3, …, 2m-3, 2m, 2m-2, …, 2, 0, 2m-1`
-    (increasing odd values, the maximum, decreasing even values, and the second largest value last) -/
-def w2Entry (m p : Nat) : Nat :=
-  if p + 1 < m then 2 * p + 1 else if p + 1 = m then 2 * m else if p < 2 * m then 2 * (2 * m - 1 - p) else 2 * m - 1
-def wedge2 (m : Nat) : NSeq := (List.range (2 * m + 1)).map (w2Entry m)
 
 inductive W2T | I | M | D | X deriving DecidableEq, Inhabited
 def w2Typing : Typing W2T where
